@@ -19,6 +19,9 @@ if gen_only:
 if os.environ.get("SWEEP_FILES"):
     ff = os.environ["SWEEP_FILES"].split(",")
     cases = [c for c in cases if ("gen" in c and "gen" in ff) or any(x in c.get("file", "") for x in ff if x != "gen")]
+if os.environ.get("SWEEP_CFGS"):
+    cc = tuple(os.environ["SWEEP_CFGS"].split(","))
+    cases = [c for c in cases if str(c.get("cfg", "")).startswith(cc)]
 if os.environ.get("SWEEP_KINDS"):
     kk = set(os.environ["SWEEP_KINDS"].split(","))
     cases = [c for c in cases if c.get("variant") and any(k in kk for k, _ in c["variant"])]
